@@ -125,7 +125,7 @@ pub fn disturbances() -> Vec<(String, Box<dyn Fn() + Send + Sync>)> {
             ));
         }
     }
-    #[cfg(feature = "full")]
+    #[cfg(feature = "f-decstack")]
     {
         use nexrad_data::volume::{File, Record};
         for (label, payload_sym) in [("record of radials", 7usize), ("record of status messages", 0)] {
